@@ -96,7 +96,7 @@ func hC09Req() {
 	if !ok {
 		return
 	}
-	maxN := 7
+	maxN := 6
 	if verifTier() == 1 {
 		maxN = 11
 	}
@@ -108,7 +108,11 @@ func hC09Req() {
 	}
 	target, codec, comp := refNegotiate(cfg)
 	wb := &c09Backend{pipeBackend: *p.backend}
-	wb.bufSize = []int{1, 3, 16}[verifChoose("bufsize", 3)]
+	if verifTier() == 1 {
+		wb.bufSize = []int{1, 3, 16}[verifChoose("bufsize", 3)]
+	} else {
+		wb.bufSize = []int{3, 16}[verifChoose("bufsize", 2)] // 1-byte reads: C08 and the thorough tier
+	}
 	p.tr.methods[pipePath].handler = wb
 	p.body.failEnd = verifChoose("transportError", 2) == 1
 	p.req = buildClientRequest(cfg, nil, p.body)
@@ -189,7 +193,7 @@ func hC09Resp() {
 		return
 	}
 	target, codec, _ := refNegotiate(cfg)
-	maxN := 6
+	maxN := 5
 	if verifTier() == 1 {
 		maxN = 10
 	}
